@@ -209,18 +209,47 @@ def slotValid (L : Layout) (order : List MetaField) (s : Src) (pagesize slot : N
     let m := readMeta L s base
     if metaValid L order m then some m else none
 
-def openSelect (L : Layout) (order : List MetaField) (s : Src) (pagesize : Nat) : Except OpenErr MetaRec :=
-  let m1 := slotValid L order s pagesize 0
-  match m1 with
+/-- the selection between the two slots, shared by both header formats (`check_meta!`): `none` when
+neither slot is valid -/
+def selectSlots (v0 v1 : Option MetaRec) (pagesize : Nat) : Except OpenErr (Option MetaRec) :=
+  match v0 with
   | some a => if a.pagesize ≠ pagesize then .error .pagesizeMismatch else
-    match slotValid L order s pagesize 1 with
+    match v1 with
     | some b =>
       if b.pagesize ≠ pagesize then .error .pagesizeMismatch
-      else if a.txId > b.txId then .ok a else .ok b
-    | none => .ok a
+      else if a.txId > b.txId then .ok (some a) else .ok (some b)
+    | none => .ok (some a)
   | none =>
-    match slotValid L order s pagesize 1 with
-    | some b => if b.pagesize ≠ pagesize then .error .pagesizeMismatch else .ok b
-    | none => .error .noValidMeta
+    match v1 with
+    | some b => if b.pagesize ≠ pagesize then .error .pagesizeMismatch else .ok (some b)
+    | none => .ok none
+
+def openSelect (L : Layout) (order : List MetaField) (s : Src) (pagesize : Nat) : Except OpenErr MetaRec :=
+  match selectSlots (slotValid L order s pagesize 0) (slotValid L order s pagesize 1) pagesize with
+  | .ok (some m) => .ok m
+  | .ok none => .error .noValidMeta
+  | .error e => .error e
+
+/-- a legacy (≤ 0.10) slot: same fields, 32-byte digest of the big-endian field images -/
+def slotValidOld (L : Layout) (order : List MetaField) (digest : List UInt8 → List UInt8) (s : Src)
+    (pagesize slot : Nat) : Option MetaRec :=
+  let base := slot * pagesize
+  if base + L.pgPtr + L.omSize > s.size then none
+  else if (s.get (base + L.pgType)).toNat ≠ L.typeMeta then none
+  else
+    let m := readMeta L s base
+    if s.bytes (base + L.pgPtr + L.omHash) L.omHashSz == digest (metaHashInput L order m) then some m else none
+
+/-- `DBInner::meta`: the current format first, then the legacy one -/
+def openAny (L : Layout) (order oldOrder : List MetaField) (digest : List UInt8 → List UInt8) (s : Src)
+    (pagesize : Nat) : Except OpenErr MetaRec :=
+  match selectSlots (slotValid L order s pagesize 0) (slotValid L order s pagesize 1) pagesize with
+  | .ok (some m) => .ok m
+  | .error e => .error e
+  | .ok none =>
+    match selectSlots (slotValidOld L oldOrder digest s pagesize 0) (slotValidOld L oldOrder digest s pagesize 1) pagesize with
+    | .ok (some m) => .ok m
+    | .ok none => .error .noValidMeta
+    | .error e => .error e
 
 end Jamm
